@@ -47,6 +47,8 @@ def gen_cases(rng, tier):
   for i in range(n):
     target = TARGETS[i % 3]
     route = rng.choice(ROUTES) if i % 20 else "cli"
+    if i % 15 == 6:
+      route = "api_legacy"     # (i % 15 == 6 is always a setfl_fs case) the legacy writer with an explicit header cutoff, see _produce
     if target == "excel_eam_fs" and route == "api_legacy":
       route = "api_class"
     groute = "api" if route.startswith("api") else "potable"
@@ -101,6 +103,8 @@ def gen_cases(rng, tier):
       na = rng.randint(3, 6)
       cut = float(model["tab"]["cutoff"])
       cluster = [[rng.choice(sp)] + [round(rng.uniform(0, cut * 0.6), 3) for _ in range(3)] for _ in range(na)]
+    if i % 15 == 6:
+      model["legacy_cutoff"] = [0.37, 0.5, 0.81][(i // 15) % 3]     # deterministic share: seeded change C04r4 depends on this class
     cases.append({"route": route, "model": model, "style": rng.randrange(1 << 30), "cluster": cluster})
   # row-count sweep (everything small, m*10^k, 2^k, multiples of 5000, each with neighbours): structure and end values
   szs = spec.edge_sizes(tier, multiple_of=1, lo=2)
@@ -150,7 +154,9 @@ def _produce(ctx, model, route, rng):
     kw = {}
     c_ = rng.random()
     span = float(t["cutoff"])
-    if c_ < 0.25:
+    if model.get("legacy_cutoff") and model["target"] == "setfl_fs":
+      kw["cutoff"] = round(span * model["legacy_cutoff"], 6)
+    elif c_ < 0.25:
       kw["cutoff"] = round(span * rng.choice([0.37, 0.5, 0.81]), 6)
     elif c_ < 0.35:
       kw["cutoff"] = round(span * 1.5, 6)
